@@ -35,7 +35,7 @@ func checkC03(r *Run) propMeta {
 	checkParameterMergeTotal(r)
 	checkBoundFlagRole(r)
 	r.Floor("C03-a-parameter-closure", 5)
-	r.Floor("C03-b-dml-origin", 8)
+	r.Floor("C03-b-dml-origin", 5) // node and edge creation, deletion, update, and at least one harness insert (harness builders may share one constructor)
 	r.Floor("C03-d-walk-error", 5)
 	return meta
 }
